@@ -203,6 +203,8 @@ def real_stream(run):
                     break
                 ev = f(rf)
                 slope = dref(rf)
+                if slope is None:
+                    continue
                 tol_e = 0.51e-8 + 2.0 ** -40 * abs(ev) + abs(slope) * 4 * math.ulp(rf)
                 if abs(float(Fr(e)) - ev) > tol_e:
                     problem = "%s row %d r=%r: energy printed %s, callable gives %r" % (desc, nrow, rf, e, ev)
